@@ -300,7 +300,8 @@ DivClass(x, dr, ar) ==
     LET i == FirstDiff(dr, ar) IN
     IF i = 0 THEN "none"
     ELSE LET d == dr[i] a == ar[i] IN
-      CASE d \in {"q.c", "d.c"} /\ a \in {"q.b", "d.b"}           -> "bslash-quote"
+      CASE x[i] = "b" /\ a = "d.o"                               -> "backtick-as-quote"   \* pipe V only
+        [] d \in {"q.c", "d.c"} /\ a \in {"q.b", "d.b"}           -> "bslash-quote"
         [] d = "E.c" /\ a = "E.b"                                  -> "estring-escaped-backslash"
         [] d = "E.c" /\ a = "E.e"                                  -> "estring-backslash-then-doubled-quote"
         [] d \in {"lc.i", "lc.o"} /\ IsOpen(a)                     -> "quote-in-line-comment"
